@@ -40,7 +40,9 @@ impl TimeSource {
             Self::HandSet => 0x60,
             Self::Other => 0x90,
             Self::InternalOscillator => 0xa0,
-            Self::ProfileSpecific(p) => 0xf0 + p,
+            // the profile specific range is 0xf0..=0xfe; a value beyond it (the
+            // variant can be built or deserialized with any u8) must not overflow
+            Self::ProfileSpecific(p) => 0xf0u8.saturating_add(p).min(0xfe),
             Self::Reserved => 0xff,
             Self::Unknown(v) => v,
         }
